@@ -77,7 +77,8 @@ class C17(runner.Check):
 		"missing from the bigWig. Non-trivial: at least one usable input locus and one "
 		"eligible background tile; distinct = distinct event-log digests.")
 	assumptions = [
-		"'touched by an input locus' is read as tiles overlapping [start, end); the "
+		"'touched by an input locus' is read as tiles overlapping [start, end) (a zero-"
+		"length locus touches the tile it lies in); the "
 		"implementation's more conservative mask (tiles start//w .. end//w) is accepted: "
 		"lower bounds use the conservative eligible set, upper bounds / disjointness the "
 		"liberal one",
@@ -260,6 +261,8 @@ class C17(runner.Check):
 				continue
 			if e > s:
 				touched_loose[name].update(range(s // w, (e - 1) // w + 1))
+			else:
+				touched_loose[name].add(s // w)       # a summit-style locus [p, p)
 			touched_impl[name].update(range(s // w, e // w + 1))
 		tiles = {}
 		el_plus = numpy.zeros(n_bins + 2, dtype=int)
